@@ -599,6 +599,7 @@ class Oracle:
     def __init__(self, prog):
         self.prog = prog
         self.subs = dict((n, b) for n, b in prog["subs"])
+        self.subs.setdefault(prog["id"], prog["main"])      # `do` may name the dialog flow itself
 
     def ev(self, expr):
         code = _VAR_RE.sub(r"var_\1", expr)
